@@ -234,6 +234,21 @@ def run(chk, repo, tier):
                f'azimuthal factor {nf.fmt_atom(trig[0]) if trig else "missing"}', f.loc(p.node))
 
     # ------------------------------------------------------------ C11-d / e
+    # default coordinates are those of the MASK wherever the module derives them: the centroid and the unit radius of the OPD's
+    # own support differ from the mask's as soon as the OPD is nonzero outside it
+    import ast as _ast
+    wrong, ncoord = [], 0
+    for g in repo.all_functions():
+        if g.module.name != 'zernike' or 'mask' not in g.param_names():
+            continue
+        for node in _ast.walk(g.node):
+            if isinstance(node, _ast.Call) and (dotted(node.func) or '').split('.')[-1] == 'zernike_coordinates':
+                ncoord += 1
+                arg = node.args[0] if node.args else next((k.value for k in node.keywords if k.arg == 'mask'), None)
+                if isinstance(arg, _ast.Name) and arg.id != 'mask' and arg.id in g.param_names():
+                    wrong.append(f'{g.key}: `{g.module.segment(node)[:50]}` at {g.loc(node)}')
+    chk.ob('C11-d', 'D-flow', 'lentil.zernike', 'default polar coordinates are derived from the mask (not from another argument)',
+           (not wrong) if ncoord else None, '; '.join(wrong[:2]) or f'{ncoord} call(s) of zernike_coordinates', '')
     cm = nf.app('cast', S('mask'), Const(('builtin', 'bool')))
     cshape = nf.attr(cm, 'shape')
     cpair = Tup([nf.index(cshape, C(0)), nf.index(cshape, C(1))], 'tuple')
